@@ -41,7 +41,7 @@ partial def modelLoop {σ : Type} (h : IO.FS.Stream) (out : IO.FS.Stream) (st : 
     (step : σ → String → σ × List String) : IO Unit := do
   let line ← h.getLine
   if line.isEmpty then return ()
-  if line.startsWith ">" then modelLoop h out st step
+  if line.startsWith ">" || line.startsWith "~" then modelLoop h out st step
   else
     let l := (line.dropEndWhile (· == '\n')).toString
     out.putStrLn l
@@ -67,7 +67,7 @@ partial def judgeLoop {σ : Type} (h : IO.FS.Stream) (out : IO.FS.Stream) (st : 
     let _ ← flush st
     return ()
   let l := (line.dropEndWhile (· == '\n')).toString
-  if l.startsWith "> " then
+  if l.startsWith "> " || l.startsWith "~ " then
     match pending with
     | some (op, outs) => judgeLoop h out st judge (some (op, (l.drop 2).toString :: outs))
     | none => judgeLoop h out st judge none
